@@ -21,9 +21,61 @@ import (
 	"testing"
 	"time"
 
+	ssi "github.com/nuts-foundation/go-did"
+	"github.com/nuts-foundation/go-did/did"
+	"github.com/nuts-foundation/nuts-node/network/transport"
 	"github.com/nuts-foundation/nuts-node/pki"
 	"go.uber.org/mock/gomock"
+	"google.golang.org/grpc/credentials"
+	grpcPeer "google.golang.org/grpc/peer"
 )
+
+type vSvc struct{ endpoint string }
+
+func (r vSvc) Resolve(_ ssi.URI, _ int) (did.Service, error) {
+	return did.Service{Type: transport.NutsCommServiceType, ServiceEndpoint: r.endpoint}, nil
+}
+func (r vSvc) ResolveEx(_ ssi.URI, _ int, _ int, _ map[string]*did.Document) (did.Service, error) {
+	return r.Resolve(ssi.URI{}, 0)
+}
+
+// the connection manager's own wrapper around the authenticator (called at inbound and outbound stream set-up) and the
+// choice of the certificate it authenticates: the LEAF of the verified peer certificates
+func vCMAuthenticate(t *testing.T, ops, impl *os.File) {
+	victim := did.MustParseDID("did:nuts:victim")
+	cm := &grpcConnectionManager{authenticator: NewTLSAuthenticator(vSvc{"grpc://victim.example.org:5555"})}
+	leafOK := &x509.Certificate{DNSNames: []string{"victim.example.org"}}
+	leafBad := &x509.Certificate{DNSNames: []string{"attacker.example"}}
+	caLike := &x509.Certificate{DNSNames: []string{"victim.example.org"}, IsCA: true}
+	cases := []struct {
+		name    string
+		claimed did.DID
+		chain   []*x509.Certificate
+	}{
+		{"covering-leaf", victim, []*x509.Certificate{leafOK}},
+		{"other-leaf", victim, []*x509.Certificate{leafBad}},
+		{"other-leaf-covering-issuer", victim, []*x509.Certificate{leafBad, caLike}},
+		{"covering-leaf-other-issuer", victim, []*x509.Certificate{leafOK, leafBad}},
+		{"no-certificate", victim, nil},
+		{"no-did-claimed", did.DID{}, []*x509.Certificate{leafBad}},
+	}
+	for _, c := range cases {
+		var p *grpcPeer.Peer
+		if c.chain != nil {
+			p = &grpcPeer.Peer{AuthInfo: credentials.TLSInfo{State: tls.ConnectionState{PeerCertificates: c.chain}}}
+		} else {
+			p = &grpcPeer.Peer{}
+		}
+		cert := extractCertificate(p)
+		peer := transport.Peer{ID: "x", Address: "x:1", Certificate: cert}
+		got, err := cm.authenticate(c.claimed, peer)
+		leafCovers := len(c.chain) > 0 && c.chain[0].VerifyHostname("victim.example.org") == nil
+		op, _ := json.Marshal(map[string]interface{}{"op": "cmauth", "case": c.name, "claimed": c.claimed.String(), "cert": len(c.chain) > 0, "leaf_covers": leafCovers})
+		fmt.Fprintln(ops, string(op))
+		fmt.Fprintf(impl, "cmauth err=%v auth=%v did=%s\n", err != nil, got.Authenticated, got.NodeDID.String())
+	}
+}
+
 
 func vMkCert(t *testing.T, cn string, dns []string, isCA bool, parent *x509.Certificate, parentKey *ecdsa.PrivateKey) (*x509.Certificate, *ecdsa.PrivateKey, tls.Certificate) {
 	key, err := ecdsa.GenerateKey(elliptic.P256(), rand.Reader)
@@ -55,6 +107,7 @@ func TestVerifC15ServerTLS(t *testing.T) {
 	defer ops.Close()
 	defer impl.Close()
 
+	vCMAuthenticate(t, ops, impl)
 	ca, caKey, _ := vMkCert(t, "Trusted CA", nil, true, nil, nil)
 	_, _, serverCert := vMkCert(t, "server", []string{"server.example.org"}, false, ca, caKey)
 	_, _, goodClient := vMkCert(t, "good", []string{"victim.example.org"}, false, ca, caKey)
